@@ -102,6 +102,71 @@ func ruleForwardedVariables(r *Run) {
 		}
 	}
 	r.AtLeast(rule, "forwarded client variables", n, 1)
+	// what the variables function hands back is what is sent: nobody changes the map between
+	// that call and the request it goes into (third audit: nil values deleted, and values
+	// replaced by a JSON round trip, in the caller)
+	var written func(v ssa.Value, depth int) (bool, token.Pos)
+	written = func(v ssa.Value, depth int) (bool, token.Pos) {
+		if v.Referrers() == nil || depth > 2 {
+			return false, token.NoPos
+		}
+		for _, ref := range *v.Referrers() {
+			switch x := ref.(type) {
+			case *ssa.MapUpdate:
+				if x.Map == v {
+					return true, x.Pos()
+				}
+			case ssa.CallInstruction:
+				c := x.Common()
+				if b, ok := c.Value.(*ssa.Builtin); ok && b.Name() == "delete" && len(c.Args) > 0 && c.Args[0] == v {
+					return true, x.Pos()
+				}
+				if sc := c.StaticCallee(); sc != nil && inModule(sc) && sc.Blocks != nil {
+					for i, a := range c.Args {
+						if a == v && i < len(sc.Params) {
+							if w, at := written(sc.Params[i], depth+1); w {
+								return true, at
+							}
+						}
+					}
+				}
+			case *ssa.Store:
+				// kept in a local variable: its loads
+				if al, ok := x.Addr.(*ssa.Alloc); ok && x.Val == v {
+					for _, r2 := range *al.Referrers() {
+						if ld, ok := r2.(*ssa.UnOp); ok {
+							if w, at := written(ld, depth+1); w {
+								return true, at
+							}
+						}
+					}
+				}
+			}
+		}
+		return false, token.NoPos
+	}
+	for _, caller := range r.P.Funcs {
+		for _, ins := range allInstrs(caller) {
+			c, ok := ins.(*ssa.Call)
+			if !ok || c.Call.StaticCallee() != fn {
+				continue
+			}
+			for _, ref := range *c.Referrers() {
+				ex, ok := ref.(*ssa.Extract)
+				if !ok || ex.Index != 0 {
+					continue
+				}
+				w, at := written(ex, 0)
+				site := r.P.pos(c.Pos())
+				if w {
+					site = r.P.pos(at)
+				}
+				r.Check(!w, "R13k.same", fnName(caller), "variables map sent as it was built", site,
+					"the map returned by "+fnName(fn)+" is not written before it goes into the request",
+					"the variables map is changed after it was built from the client's variables (entries deleted or replaced): a variable the client supplied — an explicit null, an upload object — no longer reaches the service as it was sent")
+			}
+		}
+	}
 }
 
 // variableSource traces a stored value back to a map lookup; via names the first call or
@@ -341,12 +406,42 @@ func ruleDecodeTargetScope(r *Run) {
 			}
 			args := ci.Common().Args
 			tgt := unwrap(args[len(args)-1])
+			// the variable itself, or a field / element of it (`&in.frame`)
+			for {
+				if fa, ok := tgt.(*ssa.FieldAddr); ok {
+					tgt = fa.X
+					continue
+				}
+				if ia, ok := tgt.(*ssa.IndexAddr); ok {
+					tgt = ia.X
+					continue
+				}
+				break
+			}
 			al, ok := tgt.(*ssa.Alloc)
 			if !ok {
 				continue
 			}
 			n++
-			r.Check(loop[al.Block()], rule, fnName(fn), "decode target declared per iteration", r.P.pos(ins.Pos()),
+			// declared outside but reset at the top of every round: a store of a fresh (zero or
+			// literal) value into the whole variable that comes before the decode in the round
+			reset := false
+			if !loop[al.Block()] {
+				for _, st := range storesTo(al) {
+					if !loop[st.Block()] || !instrDominates(st, ins) {
+						continue
+					}
+					switch v := st.Val.(type) {
+					case *ssa.Const:
+						reset = true
+					case *ssa.UnOp:
+						if src, ok := v.X.(*ssa.Alloc); ok && loop[src.Block()] {
+							reset = true // composite literal built in this round
+						}
+					}
+				}
+			}
+			r.Check(loop[al.Block()] || reset, rule, fnName(fn), "decode target declared per iteration", r.P.pos(ins.Pos()),
 				"the decoded variable is a fresh one in every iteration", "the variable that is JSON-decoded inside this loop is declared outside it: encoding/json re-uses the pointers and maps already hanging off it, so a message decoded later overwrites the request/variables an earlier subscription still holds")
 		}
 	}
@@ -628,13 +723,8 @@ func ruleGlobalState(r *Run) {
 			if al, ok := root.(*ssa.Alloc); ok && al.Parent() == fn {
 				continue // built here
 			}
-			if ex, ok := root.(*ssa.Extract); ok {
-				root = ex.Tuple
-			}
-			if c, ok := root.(*ssa.Call); ok {
-				if sc := c.Call.StaticCallee(); sc != nil && !inModule(sc) {
-					continue // returned by a library constructor called here (url.Parse, http.NewRequest)
-				}
+			if libraryFresh(r, root, fn, 0) {
+				continue
 			}
 			nLib++
 			r.Bad("R3j", fnName(fn), "write "+owner+"."+fieldOf(fa).Name(), r.P.pos(st.Pos()),
@@ -690,6 +780,23 @@ func ruleExecutionRequestIdentity(r *Run) {
 				if b, at := builtHere(e, fn, depth+1); b {
 					return true, at
 				}
+			}
+		case *ssa.Call:
+			// a helper of the module that assembles the request and returns it
+			if sc := x.Call.StaticCallee(); sc != nil && inModule(sc) && sc.Blocks != nil {
+				for _, ret := range returnsOf(sc) {
+					for _, res := range retVals(ret) {
+						if isReq(res.Type()) {
+							if b, at := builtHere(res, sc, depth+1); b {
+								return true, at
+							}
+						}
+					}
+				}
+			}
+		case *ssa.Extract:
+			if c, ok := x.Tuple.(*ssa.Call); ok {
+				return builtHere(c, fn, depth+1)
 			}
 		case *ssa.FreeVar:
 			// captured: the value bound where the closure is made
@@ -781,6 +888,25 @@ func ruleNextRequestsSearched(r *Run) {
 				if instrDominates(c, ret) {
 					dom = true
 				}
+				// skipped only when the step has no steps behind it (`if len(step.Then) != 0 { … }`):
+				// there is nothing to look for then
+				for _, i2 := range allInstrs(fn) {
+					iff, ok := i2.(*ssa.If)
+					if !ok || !instrDominates(iff, ret) {
+						continue
+					}
+					pos, neg := nonEmptyTest(iff.Cond, func(v ssa.Value) bool { return dependsOnField(v, "Then") }, 0)
+					var side *ssa.BasicBlock
+					if pos {
+						side = iff.Block().Succs[0]
+					} else if neg {
+						side = iff.Block().Succs[1]
+					}
+					if side != nil && len(side.Preds) == 1 && (side == c.Block() || side.Dominates(c.Block())) {
+						// and on that side the call is unavoidable up to the point where the sides meet
+						dom = true
+					}
+				}
 			}
 			r.Check(dom, rule, fnName(fn), "answer searched for next requests", r.P.pos(retPos(ret)),
 				"every accepted answer passes through findNextExecutionRequests",
@@ -788,4 +914,65 @@ func ruleNextRequestsSearched(r *Run) {
 		}
 	}
 	r.AtLeast(rule, "accepting returns of the answer parser", n, 1)
+}
+
+// libraryFresh: the object was made by a library constructor called here (url.Parse,
+// http.NewRequest): a call of a non-module function none of whose arguments has the type of
+// the result (a function that can hand back one of its arguments — lo.Coalesce, lo.Ternary —
+// makes nothing). A parameter is fresh when every caller passes such an object.
+func libraryFresh(r *Run, v ssa.Value, fn *ssa.Function, depth int) bool {
+	if depth > 3 {
+		return false
+	}
+	if al, ok := v.(*ssa.Alloc); ok {
+		return al.Parent() == fn
+	}
+	if ex, ok := v.(*ssa.Extract); ok {
+		v = ex.Tuple
+	}
+	switch x := v.(type) {
+	case *ssa.Call:
+		sc := x.Call.StaticCallee()
+		if sc == nil || inModule(sc) {
+			return false
+		}
+		var resT []types.Type
+		res := x.Call.Signature().Results()
+		for i := 0; i < res.Len(); i++ {
+			resT = append(resT, res.At(i).Type())
+		}
+		for _, a := range x.Call.Args {
+			at := a.Type()
+			if sl, ok := at.Underlying().(*types.Slice); ok {
+				at = sl.Elem()
+			}
+			for _, rt := range resT {
+				if types.Identical(at, rt) {
+					return false
+				}
+			}
+		}
+		return true
+	case *ssa.Parameter:
+		p := x.Parent()
+		idx := -1
+		for i, q := range p.Params {
+			if q == x {
+				idx = i
+			}
+		}
+		n := 0
+		for _, e := range r.P.CG.In[p] {
+			if e.Kind != "static" || idx < 0 {
+				return false
+			}
+			args := e.Site.Common().Args
+			if idx >= len(args) || !libraryFresh(r, unwrap(args[idx]), e.Caller, depth+1) {
+				return false
+			}
+			n++
+		}
+		return n > 0
+	}
+	return false
 }
